@@ -117,8 +117,6 @@ class ContMachine(Machine):
         forced = kinds[(idx // len(KINDS)) % len(kinds)]
         w[forced] = max(w[forced], 3)
         rel_p = sw.choice([0.0, 0.3, 0.6])
-        if kind.endswith("_model") and (idx // len(KINDS)) % 4 != 0:
-            rel_p = 0.0  # avoid filter for known finding F-C02-1 (keeps the space behind it explorable)
         pool = [k for k in kinds for _ in range(w[k])]
         nsrc = 0
         for _ in range(n_ops):
